@@ -174,7 +174,12 @@ func newDW(x *vrt.Exec, cfg dwCfg, db storage.Storage, cloud *simcloud.Node, k *
 		return w
 	}
 	podResources := getPodResources(objList)
-	sort.Slice(podResources, func(i, j int) bool { return podResources[i].PodInfo.Name < podResources[j].PodInfo.Name })
+	sort.SliceStable(podResources, func(i, j int) bool {
+		if podResources[i].PodInfo == nil || podResources[j].PodInfo == nil {
+			return false
+		}
+		return podResources[i].PodInfo.Name < podResources[j].PodInfo.Name
+	})
 	podResources = filterENINotFound(podResources, attachedENIID)
 	var nis []eni.NetworkInterface
 	for _, ni := range attached {
@@ -214,7 +219,7 @@ func (r dwReply) String() string {
 func confIPs(cs []*rpc.NetConf) string {
 	var out []string
 	for _, c := range cs {
-		if c.BasicInfo != nil && c.BasicInfo.PodIP != nil {
+		if c != nil && c.BasicInfo != nil && c.BasicInfo.PodIP != nil {
 			out = append(out, strings.Trim(c.BasicInfo.PodIP.IPv4+"-"+c.BasicInfo.PodIP.IPv6, "-"))
 		}
 	}
